@@ -233,7 +233,11 @@ TRange(f) ==
       [] f \in {"sulfuric_acid_density", "density_from_concentration"} -> <<K0, <<6463, 20>>>>  \* 0 .. 50 C
       [] OTHER -> <<QZero, QZero>>                                         \* no range
 HasTRange(f) == TRange(f) # <<QZero, QZero>>
-TOutside(f, ar) == HasTRange(f) /\ (QLt(ar.T, TRange(f)[1]) \/ QLt(TRange(f)[2], ar.T))
+(* the density correlations take the kelvin value of 0 C as an argument (Tz, documented default  *)
+(* 273.15): a caller may hand T over on ANY scale with that zero, e.g. in Celsius with Tz = 0.     *)
+(* TK is the temperature on the kelvin scale the ranges are written in.                           *)
+TK(f, ar) == IF f \in {"water_density", "sulfuric_acid_density"} THEN QAdd(QSub(ar.T, ar.Tz), K0) ELSE ar.T
+TOutside(f, ar) == HasTRange(f) /\ (QLt(TK(f, ar), TRange(f)[1]) \/ QLt(TRange(f)[2], TK(f, ar)))
 OtherOutside(f, ar) ==
     CASE f = "water_permittivity" -> QLt(<<2000, 1>>, ar.P)
       [] f = "sulfuric_acid_density" -> QLt(ar.w, <<1, 10>>) \/ QLt(<<9, 10>>, ar.w)
@@ -255,7 +259,7 @@ WarnExpect(f, ar) ==
 (* of the code's float comparison after rescaling; there a warning is neither demanded nor        *)
 (* forbidden.  In plain numbers / documented units the limits themselves count as inside.         *)
 OnBoundary(f, ar) ==
-    \/ HasTRange(f) /\ (Norm(ar.T) = Norm(TRange(f)[1]) \/ Norm(ar.T) = Norm(TRange(f)[2]))
+    \/ HasTRange(f) /\ (Norm(TK(f, ar)) = Norm(TRange(f)[1]) \/ Norm(TK(f, ar)) = Norm(TRange(f)[2]))
     \/ f = "water_permittivity" /\ Norm(ar.P) = <<2000, 1>>
     \/ f = "sulfuric_acid_density" /\ (Norm(ar.w) = <<1, 10>> \/ Norm(ar.w) = <<9, 10>>)
 WarnExpectM(f, ar, m) ==
@@ -437,7 +441,7 @@ WarnIffOutside ==
 Half == DDec(1, 0, <<5000>>)
 DensityShape ==
     (fn = "water_density" /\ stage # "idle" /\ ~TOutside(fn, args)) =>
-        LET t == Celsius(args.T)  r == RhoWater(t)  r2 == RhoWater(DAdd(t, Half))
+        LET t == CelsiusZ(args.T, args.Tz)  r == RhoWater(t)  r2 == RhoWater(DAdd(t, Half))
             top == DQ(Tanaka_a4, DOne)
         IN  /\ DQLe(r, top)                                        \* never above the maximum
             /\ (DQEq(r, top) <=> DEq(t, TMaxDensity))              \* attained exactly at 3.983035 C
